@@ -143,3 +143,12 @@ Definition dense_hist (bin_of : Z -> nat) (nbins : nat) (d : list Z) : list Z :=
 (* rla[list] / rla[int array] and rla[boolean array] (runlengtharray.py __getitem__: a boolean array becomes flatnonzero) *)
 Definition get_positions {A} (r : rla A) (idx : list Z) : res (list A) := rsequence (map (get_position A r) idx).
 Definition get_bool_mask {A} (r : rla A) (m : list bool) : res (list A) := get_positions r (flatnonzero m).
+
+(* rla[starts:stops] (NPSIndexable.__getitem__ -> _ragged_slice -> _start_to_end with vectors): one window per (start, stop) pair.
+   The vector code is the scalar code row by row (searchsorted is elementwise; ragged_slice cuts each row's window: C08). *)
+Definition rl_windows {A} (r : rla A) (ss es : list Z) : list (rla A) := map2 (start_to_end A r) ss es.
+(* rla[run-length mask] (_getitem_bool): the windows of the mask's true runs, raveled *)
+Definition rl_getitem_rlmask {A} (r : rla A) (m : rla bool) : list A :=
+  let starts := mask_filter (removelast (fst m)) (snd m) in
+  let ends := mask_filter (tl (fst m)) (snd m) in
+  concat (map (decode A) (rl_windows r starts ends)).
